@@ -3,6 +3,7 @@ import VModel.Spec
 import VProofs.Lemmas.TagAsmCollect
 import VProofs.Lemmas.TagAsmSizes
 import VProofs.Lemmas.TagAsmTokens
+import VProofs.Lemmas.PermTag
 /-!
 # C12 — Tag models reflect exactly the tags seen in training
 
@@ -52,5 +53,96 @@ example : collectTags [[some ['a'], none], [some ['b'], some ['x']], [some ['a']
   decide
 
 example : specPickTags [[['a'], ['b']], [['x']], []] [1, 5] = [some ['b'], some ['x'], none] := by decide
+
+end V
+
+/-! ## hash-map iteration orders in `tag_trainer.rs` are not observable
+
+`train_tag` walks `feature_ids` — a hashbrown `HashMap` filled by `gen_feature_vecs` — once per classifier (one classifier per
+token and tag category, i.e. per `(token, class_offset)`); for every feature it writes one weight per class.  The tokens come
+from a `BTreeMap` and the categories and classes from `Vec`s, so the real code can only reorder the FEATURES (the runs of
+trace items of one feature) inside one classifier.  The theorems below allow more: ANY permutation of the whole trace, as long
+as no two items write the same cell `(token, feature-or-bias, class_offset + cls)` — which holds for every real trace, whose
+features are the distinct keys of a map and whose class slots are distinct.  The outcomes are equal as `Res` values (all panics
+of one of the three folds carry the same site string, so no "which panic first" effect as in C09). -/
+namespace V
+
+/-- **order independence (trace)**: any permutation of a trace whose items write pairwise different cells gives the same tag
+models (or the same panic) -/
+theorem C12_assemble_perm (corpus : List TagExample) (dict : List (List Char × List Tag)) (trace₁ trace₂ : List TagTraceItem)
+    (hp : trace₁.Perm trace₂) (hnd : (trace₁.map fun t => (t.token, t.feat, t.offset + t.cls)).Nodup) :
+    assembleTags corpus dict trace₁ = assembleTags corpus dict trace₂ :=
+  C12L.assembleTags_perm_trace corpus dict hp hnd
+
+/-- the same for the model of one token (`train_tag`) -/
+theorem C12_assembleTag_perm (token : List Char) (examples : List (List Tag)) (trace₁ trace₂ : List TagTraceItem)
+    (hp : trace₁.Perm trace₂) (hnd : (trace₁.map fun t => (t.token, t.feat, t.offset + t.cls)).Nodup) :
+    assembleTag token examples trace₁ = assembleTag token examples trace₂ :=
+  C12L.assembleTag_perm token examples hp hnd
+
+/-- exactly what the real code can do: inside one classifier (between the items `pre` written before and `post` written after)
+the per-feature runs `runs₁` come in another order `runs₂` -/
+theorem C12_assemble_perm_features (corpus : List TagExample) (dict : List (List Char × List Tag))
+    (pre post : List TagTraceItem) (runs₁ runs₂ : List (List TagTraceItem)) (hp : runs₁.Perm runs₂)
+    (hnd : ((pre ++ runs₁.flatten ++ post).map fun t => (t.token, t.feat, t.offset + t.cls)).Nodup) :
+    assembleTags corpus dict (pre ++ runs₁.flatten ++ post) = assembleTags corpus dict (pre ++ runs₂.flatten ++ post) :=
+  C12L.assembleTags_perm_trace corpus dict (((List.Perm.refl pre).append hp.flatten).append (List.Perm.refl post)) hnd
+
+/-- **order independence (`default_tags`)**: `TagTrainer::train` walks the `HashMap` `default_tags` to add the dictionary-only
+tokens; any order of its (distinct) keys gives the same tag models -/
+theorem C12_assemble_dict_perm (corpus : List TagExample) (dict₁ dict₂ : List (List Char × List Tag)) (trace : List TagTraceItem)
+    (hp : dict₁.Perm dict₂) (hnd : (dict₁.map Prod.fst).Nodup) :
+    assembleTags corpus dict₁ trace = assembleTags corpus dict₂ trace :=
+  C12L.assembleTags_perm_dict corpus trace hp hnd
+
+-- (for the `decide`d examples only)
+deriving instance DecidableEq for TagTraceItem
+
+namespace C12PermEx
+
+def corpus : List TagExample :=
+  [{ surface := ['a'], tags := [some ['x']], feats := [] }, { surface := ['a'], tags := [some ['y']], feats := [] },
+   { surface := ['b'], tags := [some ['x']], feats := [] }, { surface := ['b'], tags := [some ['z']], feats := [] }]
+def it (tok : List Char) (cls : Nat) (f : Option TagFeat) (w : Int) : TagTraceItem :=
+  { token := tok, offset := 0, cls := cls, feat := f, weight := w }
+def biasA : List TagTraceItem := [it ['a'] 0 none 3, it ['a'] 1 none (-2)]
+def run1 : List TagTraceItem := [it ['a'] 0 (some (.charNgram ['a'] 0)) 5, it ['a'] 1 (some (.charNgram ['a'] 0)) 7]
+def run2 : List TagTraceItem := [it ['a'] 0 (some (.charNgram ['b', 'a'] 0)) 0, it ['a'] 1 (some (.charNgram ['b', 'a'] 0)) 1]
+def run3 : List TagTraceItem := [it ['a'] 0 (some (.typeNgram [1] 0)) 2, it ['a'] 1 (some (.typeNgram [1] 0)) 4]
+def run4 : List TagTraceItem := [it ['a'] 0 (some (.charNgram ['a'] 1)) 9, it ['a'] 1 (some (.charNgram ['a'] 1)) 0]
+def tokB : List TagTraceItem := [it ['b'] 0 none 1, it ['b'] 1 none 1, it ['b'] 1 (some (.charNgram ['b'] 0)) 6]
+
+/-- non-vacuity of `C12_assemble_perm_features`: four feature runs of token `a` in two different orders (a rotation composed
+with a swap), distinct cells, a value (not a panic) on both sides, with several entries per table -/
+example :
+    [run1, run2, run3, run4].Perm [run3, run1, run4, run2] ∧
+    ((biasA ++ [run1, run2, run3, run4].flatten ++ tokB).map fun t => (t.token, t.feat, t.offset + t.cls)).Nodup ∧
+    assembleTags corpus [] (biasA ++ [run1, run2, run3, run4].flatten ++ tokB)
+      = assembleTags corpus [] (biasA ++ [run3, run1, run4, run2].flatten ++ tokB) ∧
+    assembleTags corpus [] (biasA ++ [run1, run2, run3, run4].flatten ++ tokB) =
+      .ok [{ token := ['a'], tags := [[['x'], ['y']]],
+             charNgrams := [⟨['a'], [⟨0, [5, 7]⟩, ⟨1, [9, 0]⟩]⟩, ⟨['b', 'a'], [⟨0, [0, 1]⟩]⟩],
+             typeNgrams := [⟨[1], [⟨0, [2, 4]⟩]⟩], bias := [3, -2] },
+           { token := ['b'], tags := [[['x'], ['z']]], charNgrams := [⟨['b'], [⟨0, [0, 6]⟩]⟩], typeNgrams := [],
+             bias := [1, 1] }] := by
+  refine ⟨by decide, by decide, by decide, by decide⟩
+
+/-- the hypothesis is needed: two items that write the SAME cell do not commute (the later one wins); a real trace has no such
+pair -/
+example :
+    [it ['a'] 0 none 3, it ['a'] 0 none 4].Perm [it ['a'] 0 none 4, it ['a'] 0 none 3] ∧
+    assembleTags corpus [] [it ['a'] 0 none 3, it ['a'] 0 none 4] ≠ assembleTags corpus [] [it ['a'] 0 none 4, it ['a'] 0 none 3] := by
+  refine ⟨List.Perm.swap _ _ _, by decide⟩
+
+/-- non-vacuity of `C12_assemble_dict_perm`: three dictionary-only tokens (one without any tag, so skipped; one that the corpus
+already has) in two orders -/
+example :
+    let d₁ : List (List Char × List Tag) := [(['q'], [some ['n']]), (['a'], [some ['w']]), (['c'], [none]), (['d'], [some ['v']])]
+    let d₂ : List (List Char × List Tag) := [(['d'], [some ['v']]), (['c'], [none]), (['q'], [some ['n']]), (['a'], [some ['w']])]
+    d₁.Perm d₂ ∧ (d₁.map Prod.fst).Nodup ∧ assembleTags corpus d₁ biasA = assembleTags corpus d₂ biasA ∧
+    (assembleTags corpus d₁ biasA).isOk = true := by
+  refine ⟨by decide, by decide, by decide, by decide⟩
+
+end C12PermEx
 
 end V
